@@ -210,3 +210,67 @@ def run(ctx, rep):
     rule_bound(ctx, rep)
     rule_pair(ctx, rep)
     rule_assigned(ctx, rep)
+
+
+CLIPPY_LINTS = ["unwrap_used", "expect_used", "panic", "todo", "unimplemented", "unreachable", "indexing_slicing", "string_slice"]
+
+
+def clippy_cross_reference(ctx, rep, entries, rid="T-clippy"):
+    """Thorough tier: an independent opt-in lint run (clippy restriction lints the project never enabled) as a recall check of
+    the inventory: every clippy hit inside a product function reachable from the entry points must coincide (file:line)
+    with a site of the MIR inventory."""
+    import json, os, subprocess
+    from vlib import facts as F
+    r = rep.rule(rid, "cross-reference: every clippy::{%s} hit in a reachable product function coincides with a site of the panic inventory" % ",".join(CLIPPY_LINTS))
+    env = dict(os.environ, CARGO_NET_OFFLINE="true", CARGO_TARGET_DIR=os.path.join(F.CACHE, "target-clippy"))
+    env.pop("RUSTC_WORKSPACE_WRAPPER", None)
+    env.pop("RUSTFLAGS", None)
+    cmd = ["cargo", "+nightly", "clippy", "--offline", "--workspace", "--message-format=json", "--", "-A", "clippy::all"]
+    for l in CLIPPY_LINTS:
+        cmd += ["-W", "clippy::" + l]
+    # clippy results are cached by cargo: force the workspace members to be re-linted
+    import glob, shutil, re
+    for fp in glob.glob(os.path.join(env["CARGO_TARGET_DIR"], "debug", ".fingerprint", "*")):
+        if re.match(r"(ironplc|ironplcc|dsl_macro_derive|dsl-macro-derive)", os.path.basename(fp)):
+            shutil.rmtree(fp, ignore_errors=True)
+    p = subprocess.run(cmd, cwd=F.WS, env=env, capture_output=True, text=True)
+    if p.returncode != 0:
+        rep.error(rid, "cargo clippy failed: " + p.stderr[-400:])
+        return
+    hits = []
+    for line in p.stdout.splitlines():
+        if not line.startswith("{"):
+            continue
+        m = json.loads(line)
+        if m.get("reason") != "compiler-message":
+            continue
+        code = (m["message"].get("code") or {}).get("code") or ""
+        if not code.startswith("clippy::"):
+            continue
+        sp = [s for s in m["message"]["spans"] if s.get("is_primary")]
+        if sp:
+            hits.append((code, sp[0]["file_name"], sp[0]["line_start"]))
+    sites, reach = panics.inventory(ctx, entries)
+    site_lines = {(s.body.f["file"] if len(s.loc) < 4 or not s.loc[3] else s.loc[3], s.loc[0]) for s in sites}
+    # reachable product functions by file and line range
+    spans = []
+    for fid in reach:
+        f = ctx.prog.bodies[fid].f
+        if f["crate"] in F.PRODUCT:
+            spans.append((f["file"], f["line"], f["endline"]))
+    n = 0
+    for code, file, line in sorted(set(hits)):
+        inside = any(file == sf and lo <= line <= hi for sf, lo, hi in spans)
+        if not inside:
+            continue
+        n += 1
+        inst = "%s@%s" % (code, file)
+        if (file, line) in site_lines:
+            r.ok("%s:%d" % (inst, line), "%s:%d" % (file, line))
+        else:
+            r.finding("%s|not-in-inventory|%s" % (inst, code), "%s:%d" % (file, line), "clippy reports %s here, inside a function reachable from the entry points, but the MIR inventory has no site on this line" % code)
+    r.note("%d clippy hits in the workspace, %d inside reachable product functions" % (len(set(hits)), n))
+
+
+def thorough_extra(ctx, rep):
+    clippy_cross_reference(ctx, rep, entry_bodies(ctx, rep, ENTRIES))
